@@ -37,7 +37,7 @@ pub fn state_mismatch(obs: &Obs, m: &Model) -> Option<String> {
         a2.sort_by(|x, y| key(x).cmp(&key(y)).then(f64::from_bits(x.2).total_cmp(&f64::from_bits(y.2))));
         b2.sort_by(|x, y| key(x).cmp(&key(y)).then(f64::from_bits(x.2).total_cmp(&f64::from_bits(y.2))));
         for (x, y) in a2.iter().zip(b2.iter()) {
-            if key(x) != key(y) || !crate::oracle::close(f64::from_bits(x.2), f64::from_bits(y.2)) {
+            if key(x) != key(y) || !crate::oracle::close_rel(f64::from_bits(x.2), f64::from_bits(y.2)) {
                 return Some(format!("edge multiset (summed weights compared at 1e-9): real {:?} vs model {:?}", show_edges(&a), show_edges(&b)));
             }
         }
